@@ -389,6 +389,27 @@ def run_history(case, ctx):
                 if oa != ob:
                     raise Violation("binary/read-values", "record #%d differs: %s" % (i, diff(oa, ob)))
 
+    # the same record OBJECTS exported once more, to a writer opened afterwards (tee / re-export): that stream has
+    # to be self-describing too, whatever the first export left behind on the objects
+    if records:
+        ctx.cls("re-exported-to-later-writer")
+        all_specs = [m for _, m in specs]
+        if kind == "binary":
+            fp2 = KeepBytes()
+            w2 = RecordStreamWriter(fp2)
+        else:
+            fp2 = KeepText()
+            w2 = JsonfileWriter(fp2)
+        for r in records:
+            res = impl(w2.write, r)
+            if not res.ok:
+                raise Violation("%s/re-export/write-raised/%s" % (kind, res.type), "second writer: write raised %r" % (res,))
+        impl(w2.flush)
+        if kind == "binary":
+            check_binary_stream(fp2.getvalue(), all_specs, "binary/re-export")
+        else:
+            check_json_stream(fp2.getvalue(), all_specs, True, "json/re-export")
+
 
 # ---------------------------------------------------------------------------------------------
 # random histories
